@@ -205,6 +205,42 @@ fn build_steps(st: &mut Store, r: &mut Rng, a: &ANode, order: usize, ops: &mut V
     h
 }
 
+/// stepwise construction through the convenience calls only, top-down: append_element / append_text / append_comment /
+/// append_processing_instruction attach a node made on the spot; the declarations of an element are added with
+/// append_namespace (xmlname::CreateNamespace) and its attributes with set_attribute once the element is in place under its
+/// parent — the order of attachment in which a call can see what is in scope above the element.
+fn build_convenience(xot: &mut Xot, reg: &Reg, a: &ANode) -> Result<Node, String> {
+    fn fill(xot: &mut Xot, reg: &Reg, me: Node, a: &ANode) -> Result<(), String> {
+        if let ANode::Elem { ns, attrs, .. } = a {
+            for (p, n) in ns {
+                let (ps, us) = (reg.prefixes[*p].0.clone(), reg.nss[*n].0.clone());
+                let c = xot::xmlname::CreateNamespace::new(xot, &ps, &us);
+                let got = xot.append_namespace(me, &c).map_err(|e| format!("append_namespace: {:?}", e))?;
+                if xot.parent(got) != Some(me) { return Err(format!("append_namespace returned a node that is no child of the element")); }
+            }
+            for (n, v) in attrs { xot.set_attribute(me, reg.names[*n].2, v.clone()); }
+        }
+        let kids: &[ANode] = match a { ANode::Doc(k) => k, ANode::Elem { kids, .. } => kids, _ => &[] };
+        for k in kids {
+            match k {
+                ANode::Elem { name, .. } => {
+                    xot.append_element(me, reg.names[*name].2).map_err(|e| format!("append_element: {:?}", e))?;
+                    let c = xot.last_child(me).ok_or("append_element left no last child")?;
+                    fill(xot, reg, c, k)?;
+                }
+                ANode::Text(s) => xot.append_text(me, s).map_err(|e| format!("append_text: {:?}", e))?,
+                ANode::Comment(s) => xot.append_comment(me, s).map_err(|e| format!("append_comment: {:?}", e))?,
+                ANode::Pi(t, d) => xot.append_processing_instruction(me, reg.names[*t].2, d.as_deref()).map_err(|e| format!("append_processing_instruction: {:?}", e))?,
+                _ => return Err("unexpected node kind".into()),
+            }
+        }
+        Ok(())
+    }
+    let d = xot.new_document();
+    fill(xot, reg, d, a)?;
+    Ok(d)
+}
+
 pub fn main() {
     quiet_panics();
     let a = args();
@@ -287,6 +323,18 @@ pub fn main() {
             if let Some(h) = h {
                 let doc = st.known[&h];
                 texts.push((format!("steps{}", order), canon(&st.xot, doc), st.xot.to_string(doc).map_err(|e| format!("{:?}", e))));
+            }
+        }
+        // ---------- (w) the convenience calls, top-down (implementation only: each of them is new_* followed by append)
+        {
+            let mut st = Store::new();
+            register_sdoc(&mut st.xot, &mut st.reg, &d);
+            let an = to_anode(&mut st.xot, &mut st.reg, &d);
+            let reg = st.reg.clone();
+            match guard(|| build_convenience(&mut st.xot, &reg, &an)) {
+                Ok(Ok(doc)) => { texts.push(("convenience".into(), canon(&st.xot, doc), st.xot.to_string(doc).map_err(|e| format!("{:?}", e)))); stats.bump("c20.convenience_routes"); }
+                Ok(Err(e)) => out.fail(&case, "route-failed", &format!("the convenience route failed: {}", e)),
+                Err(()) => out.fail(&case, "route-failed", "the convenience route panicked"),
             }
         }
         // ---------- the routes agree: same tree (kinds, order, expanded names, attribute order, declarations, values), same text
